@@ -265,3 +265,41 @@ func vh_C04_token_claims_first() {
 		verifAssert("C04.first.refused-only-for-an-unverified-email", !verified)
 	}
 }
+
+// login enrichment never takes identity from a token nobody verified: when the verified ID token
+// carries no e-mail (and no profile endpoint is configured), the login is refused -- whatever the
+// access token, a JWT the proxy never verifies, claims
+// verif: unwind=8 strlen=8 also=C14
+func vh_C04_enrich() {
+	claims := map[string]interface{}{"sub": "someone"}
+	email := ""
+	if ndBool("id-token-has-email") {
+		email = ndString("email")
+		claims["email"] = email
+	}
+	tok := verifIDToken(claims)
+	// the access token: a JWT of the identity provider's liking, never checked by the proxy
+	at := verifIDToken(map[string]interface{}{"sub": "other", "email": "victim@corp.example", "groups": []interface{}{"admins"}})
+	if ndBool("opaque-access-token") {
+		at = ndString("access-token")
+	}
+	token := (&oauth2.Token{AccessToken: at, RefreshToken: "r", Expiry: time.Unix(1700003600, 0)}).WithExtra(map[string]interface{}{"id_token": tok})
+	ver := &vVerifier{}
+	pd := &ProviderData{Verifier: ver, EmailClaim: options.OIDCEmailClaim, UserClaim: "sub", GroupsClaim: "groups"}
+	p := &OIDCProvider{ProviderData: pd}
+	ss, err := p.createSession(context.Background(), token, false)
+	if err != nil || ss == nil {
+		verifReach("refused-at-creation")
+		return
+	}
+	eerr := p.EnrichSession(context.Background(), ss)
+	if eerr == nil {
+		verifReach("enriched")
+		verifAssert("C04.enrich.only-the-id-token-was-verified", ver.calls == 1 && ver.raw == tok)
+		verifAssert("C04.enrich.email-is-the-verified-claim", ss.Email == email && email != "")
+		verifAssert("C04.enrich.no-groups-from-unverified-token", len(ss.Groups) == 0)
+	} else {
+		verifReach("refused-at-enrichment")
+		verifAssert("C04.enrich.refused-only-without-verified-email", email == "")
+	}
+}
